@@ -8,6 +8,12 @@ N7={
 "C13-agent7":("(o) chain of stable sorts, one per order attribute, replaced by one sort on a tuple key whose reverse flag comes from the first order entry","order with two or more attributes of differing directions and ties on the first attribute"),
 "C14-agent7":("(o) 'attribute missing or not comparable -> no match' decided per object instead of per statement","OR filter of two statements over several subscribed types; an object matches one statement and lacks the other's attribute: never notified"),
 "C19-agent7":("(o) admit_packet stores the unbounded t_on/delta; update_delta rescales that instead of the bounded interval in force","an admission whose B.1 interval hit the 25 ms or 1 s bound, then a delta update while the gate is closed"),
+"C01-agent7":("(n) math.fmod instead of % in the longitude-difference normalisation of calculate_distance","GBC/GAC area centre just west of the antimeridian, receiver just east of it (difference below -180 deg): receiver inside the area judged outside, nothing delivered"),
+"C02-agent7":("(n) _to_signed via int.from_bytes(signed=True) over whole octets: the 15-bit speed is never sign-extended","a long position vector with a negative speed (reversing station)"),
+"C05-agent7":("(n) integer microseconds-per-unit table with sixtyHours = 6 h","honest sender whose ticket validity is given in sixtyHours and that is past a tenth of it: rejected, never learnt, P2PCD cannot recover"),
+"C07-agent7":("(n) area-size limit compared after floor division to km2","area between the maximum and the maximum + 1 km2 (request, GBC forward, GAC forward): accepted / forwarded"),
+"C09-agent7":("(n) integer microseconds-per-unit table with sixtyHours = 600 h","ticket validity in sixtyHours, generation time up to ten times the duration after the start: accepted"),
+"C12-agent7":("(n) end of validity computed in whole seconds with round(timestamp/1000)","object whose add time stamp has a millisecond part >= 500, maintenance pass in the first second after its expiry, then a query: still returned"),
 "C20-agent7":("(n) round() instead of int() in the seconds -> milliseconds conversion of the requested maximum lifetime","explicit max_packet_lifetime with a fractional millisecond >= 0.5 just below a representable LT step: wire lifetime exceeds the request"),
 }
 FIRST_CAUGHT=set(open('/verif/tools/seednotes/round7.first').read().split())
